@@ -7,6 +7,21 @@ CHECKS = {
    note="Trusted: go-openapi loads/spec/validate, recover() as panic observer, 120 s per-case non-termination guard. Bounds: <=2 features per spec (identity), pairs of <=1-feature members quick / <=2-feature members thorough.",
    technique="explicit enumeration of a bounded input space (deviation-bounded DFS over feature choices), oracle = identity/totality on the real diff code",
    ref="3/C12"),
+ "C13": dict(
+   text="Bounded-exhaustive exploration of a catalogue of elementary narrowing edits (28 leaf-constraint edits x up to 16 embedding sites, structural edits, documented response-side edits) through the real diff.Compare and DiffCommand.Execute; every request-side edit carries a witness request that a reference binder certifies as accepted-before / rejected-after on every run, so the oracle (>=1 Breaking and non-zero exit) is only applied where the statement applies.",
+   note="Trusted: mc/refbind (reference request semantics, DESIGN appendix A) and go-openapi/validate for JSON bodies. Known findings (root causes R2-R9 in DESIGN.md) are listed per (edit kind, site) in known_findings.json.",
+   technique="explicit enumeration of a bounded edit space (edit kind x site), witness-certified oracle, on the real diff code",
+   ref="3/C13"),
+ "C14": dict(
+   text="Every unordered pair of diff-family members (<=1 feature quick: 2.5k pairs; <=2 features thorough: 2.0M pairs) plus all catalogue edit pairs is compared in both directions by the real diff.Compare; the two reports must be mirror images as multisets of (location, direction class) under the involution over all 56 change codes.",
+   note="Location = URL, method, response code, node-name path. Violations are split per location component so one root cause is one signature; 42 known asymmetry signatures (root causes D,E,P,T,C in DESIGN.md).",
+   technique="explicit enumeration of ordered spec pairs, mirror-involution oracle on the real diff code",
+   ref="3/C14"),
+ "C15": dict(
+   text="Pairs of family members and catalogue edits are run through the real DiffCommand.Execute with real files in json/txt/-b formats under ignore files derived from the run's own JSON report: all 2^n subsets for n<=4, else none/all(verbatim)/singletons/co-singletons/Breaking/non-Breaking; 5 coherence clauses; plus every change code x compatibility through the JSON round trip.",
+   note="In-process Execute error == non-zero exit (cmd/swagger/swagger.go). Known finding: --format json always exits 0 (pinned by TestDiffProcessIgnores).",
+   technique="explicit enumeration of (pair, ignore subset, format) through the real command, coherence oracle",
+   ref="3/C15"),
 }
 NOT_BUILT = {}
 ALL = ["C%02d" % i for i in range(1, 20)]
